@@ -424,4 +424,4 @@ mod tests {
 
 #[cfg(kani)]
 #[path = "/verif/harness/teos/tx_index.rs"]
-mod verif_harness;
+pub(crate) mod verif_harness;
